@@ -309,10 +309,14 @@ def job_file(spec):
             return iter(lines)
     ns["open"] = lambda *a, **k: FakeFile()
 
+    def counts(r):
+        return (len(r.basePairs), len(r.stackings), len(r.baseRiboseInteractions), len(r.basePhosphateInteractions), len(r.otherInteractions))
+
     def run():
-        r1 = ns["parse_fr3d_output"]("/fake/fr3d.txt")
-        r2 = ns["parse_fr3d_output"]("/fake/fr3d.txt")
-        return r1, r2
+        # counts are taken right after each call: results that alias shared state would otherwise look equal
+        c1 = counts(ns["parse_fr3d_output"]("/fake/fr3d.txt"))
+        c2 = counts(ns["parse_fr3d_output"]("/fake/fr3d.txt"))
+        return c1, c2
     t0 = time.time()
     paths = eng.explore(run)
     res = {"name": "parse_fr3d_output", "paths": len(paths), "verdicts": [], "reach": 0}
@@ -322,9 +326,7 @@ def job_file(spec):
             res["verdicts"].append({"ob": f"parse_fr3d_output raised {type(out).__name__}: {out}", "v": v, "key": "parse_fr3d_output:exception",
                                     "w": B.conc(sym_line, m) if m is not None else None})
             continue
-        r1, r2 = out
-        counts = lambda r: (len(r.basePairs), len(r.stackings), len(r.baseRiboseInteractions), len(r.basePhosphateInteractions), len(r.otherInteractions))  # noqa: E731
-        c1, c2 = counts(r1), counts(r2)
+        c1, c2 = out
         # fixed part: 1 base pair, 1 other (zzz), 1 stacking ; symbolic line: +1 base pair unless it is a comment ('#' first) -- 'X'/'x' first char
         # makes the pdb field longer, still well-formed
         is_comment = z3.And(first.lnz() == 1, first.chars[0] == ord("#"))
